@@ -318,7 +318,13 @@ func (x *Exec) freshSymSlice(name string, w int, elem types.Type) SliceV {
 	arr := Fresh(name+"!arr", Arr(w))
 	ln := Fresh(name+"!len", BV(64))
 	x.noteInputArr(name, arr, ln, w)
-	x.st.heap.m[o] = SymArrV{Arr: arr, Len: ln, W: w}
+	if x.lazy {
+		// part of a lazily materialised structure: shared by all paths
+		o.Birth = -1
+		x.constObjs[o] = SymArrV{Arr: arr, Len: ln, W: w}
+	} else {
+		x.st.heap.m[o] = SymArrV{Arr: arr, Len: ln, W: w}
+	}
 	x.assume(BvUle(ln, BVU(1<<maxLenBits, 64)))
 	return SliceV{Obj: o, Off: bv64(0), Len: ln, Cap: ln, Nil: False()}
 }
